@@ -522,6 +522,10 @@ class SeriesOps:
             if isinstance(a0, tuple) and a0 and a0[0] == "zip":
                 return ("dictzip",) + tuple(a0[1])
             return ("dict", to_term(a0))
+        if fn == "map" and len(pos) >= 2 and all(I._concrete_seq(p) is not None for p in pos[1:]) and isinstance(pos[0], (FuncRef, Obj, ClassRef)):
+            # map(f, xs) over concrete sequences: the list of f's results (laziness is not modelled; callers only iterate it once)
+            seqs = [I._concrete_seq(p) for p in pos[1:]]
+            return [self.M.invoke(pos[0], list(args), {}, node, "map-callee") for args in zip(*seqs)]
         if fn == "zip":
             if all(I._concrete_seq(p) is not None for p in pos) and pos:
                 return [PyTuple(list(x)) for x in zip(*[I._concrete_seq(p) for p in pos])]
